@@ -296,11 +296,26 @@ structure Res where
   next : Nat
   deriving Repr
 
-mutual
-/-- §7.5 for one node. `lm` is the list mapping of the evaluation context. -/
-def procNode (C : Ctx) (lm : LM) (n : Nat) : Tree → Res
-  | .text _ => { out := [], lm := lm, next := n }
-  | .elem tag a kids =>
+/-- what steps 1–12 compute for one element, before its children are looked at -/
+structure Local where
+  /-- triples of steps 2, 7, 9, 11, 12 -/
+  out : List Tr
+  /-- the context's list mapping after step 12 -/
+  lmCtx : LM
+  /-- the local list mapping after step 12 -/
+  lmLoc : LM
+  /-- evaluation context for the children (step 13) -/
+  kid : Ctx
+  skip : Bool
+  /-- step 8 made a new list mapping -/
+  freshLM : Bool
+  /-- new subject (or the parent subject when there is none): the subject of step 14 -/
+  ns : T
+  next : Nat
+  deriving Repr
+
+/-- steps 1–12 for an element with tag `tag`, attributes `a` and text content `txt` -/
+def elemLocal (C : Ctx) (lm : LM) (n : Nat) (tag : Tag) (a : Attrs) (txt : Str) : Local :=
     let root := tag == .html
     let hb := tag == .head || tag == .body
     -- step 2
@@ -310,8 +325,7 @@ def procNode (C : Ctx) (lm : LM) (n : Nat) : Tree → Res
       | some v => if v = [] then none else some v
     let out2 : List Tr :=
       match a.vocab with
-      | some v => if v = [] then [] else
-          [⟨.iri (resolveRef C.env.base []), usesVocabulary, .iri (vocab'.getD [])⟩]
+      | some v => if v = [] then [] else [⟨.iri (resolveRef C.env.base []), usesVocabulary, .iri v⟩]
       | none => []
     -- step 3
     let prefixes' := (match a.pfx with | some p => prefixDecls (fields p) | none => []) ++ C.env.prefixes
@@ -358,7 +372,7 @@ def procNode (C : Ctx) (lm : LM) (n : Nat) : Tree → Res
       match a.property with
       | none => ([], lm9)
       | some pv =>
-        let v := propertyValue E a hasRel S.typed lang' (textOfList kids)
+        let v := propertyValue E a hasRel S.typed lang' txt
         let ps := resTCAs E pv
         if a.inlist.isSome then ([], ps.foldl (fun m p => lmAdd m p v) lm9)
         else (ps.map (fun p => ⟨ns, p, v⟩), lm9)
@@ -374,27 +388,34 @@ def procNode (C : Ctx) (lm : LM) (n : Nat) : Tree → Res
           let r := complete C.parentSubject ns C.incomplete lm11
           (r.1, r.2, r.2)
       else (([] : List Tr), lm, lm11)
-    let out12 := r12.1
-    let lmCtx := r12.2.1      -- the context's mapping after step 12
-    let lmLoc := r12.2.2      -- the local mapping after step 12
     -- step 13
-    if S.skip then
-      -- nothing but a @vocab triple can come from a skipped element; the children see the context's own
-      -- list mapping
-      let rk := procKids { C with env := E, lang := lang' } lm n9 kids
-      { out := out2 ++ rk.out, lm := rk.lm, next := rk.next }
-    else
-    let C' : Ctx :=
+    let kid : Ctx :=
+      if S.skip then { C with env := E, lang := lang' }
+      else
         { env := E, parentSubject := ns,
           parentObject := (match cor with | some o => o | none => ns),
           incomplete := inc, lang := lang' }
-    let rk := procKids C' lmLoc n9 kids
-    -- step 14
-    if freshLM then
-      let r14 := emitLists ns rk.lm rk.next
-      { out := out2 ++ out7 ++ out9 ++ out11 ++ out12 ++ rk.out ++ r14.1, lm := lmCtx, next := r14.2 }
+    { out := if S.skip then out2 else out2 ++ out7 ++ out9 ++ out11 ++ r12.1,
+      lmCtx := r12.2.1, lmLoc := r12.2.2, kid := kid, skip := S.skip, freshLM := freshLM, ns := ns, next := n9 }
+
+mutual
+/-- §7.5 for one node. `lm` is the list mapping of the evaluation context. -/
+def procNode (C : Ctx) (lm : LM) (n : Nat) : Tree → Res
+  | .text _ => { out := [], lm := lm, next := n }
+  | .elem tag a kids =>
+    let L := elemLocal C lm n tag a (textOfList kids)
+    if L.skip then
+      -- step 13, skip element: the children see the context's own list mapping
+      let rk := procKids L.kid lm L.next kids
+      { out := L.out ++ rk.out, lm := rk.lm, next := rk.next }
     else
-      { out := out2 ++ out7 ++ out9 ++ out11 ++ out12 ++ rk.out, lm := rk.lm, next := rk.next }
+      let rk := procKids L.kid L.lmLoc L.next kids
+      if L.freshLM then
+        -- step 14: the lists made at or below this element
+        let r14 := emitLists L.ns rk.lm rk.next
+        { out := L.out ++ rk.out ++ r14.1, lm := L.lmCtx, next := r14.2 }
+      else
+        { out := L.out ++ rk.out, lm := rk.lm, next := rk.next }
 def procKids (C : Ctx) (lm : LM) (n : Nat) : List Tree → Res
   | [] => { out := [], lm := lm, next := n }
   | k :: ks =>
